@@ -53,7 +53,10 @@ def main():
              "opts": {"ips": 1, "bs": b["b"], "zooms": [1], "zmode": "manual", "compress": k % 2, "inmem": 1, "threads": 1, "rt": "current",
                       "pass": 1 + (k // 2) % 2, "chan": 100},
              "vmap": "int", "allq": 1, "zq": 0, "scale": 1, "asq": "bed3", "mz": [],
-             "dump": os.path.join(run.wd, "f%d.bin" % k), "secs": b["secs"], "b": b["b"], "shape": b["shape"], "n": b["n"]}
+             "dump": os.path.join(run.wd, "f%d.bin" % k), "secs": b["secs"], "b": b["b"], "shape": b["shape"], "n": b["n"],
+             # every other tree is searched through ONE caching reader (index nodes are cached between queries), half of those in a
+             # seeded permutation of the ranges starting with the last chromosome
+             "cached": k % 2, "qorder": "shuffle" if k % 4 == 3 else "asc"}
         cases.append(c)
     # the same trees with every position multiplied by the largest power of two that keeps the chromosome below 2^32
     # (coordinates beyond 2^31: span comparisons must be unsigned 32-bit); these copies are only queried
